@@ -318,7 +318,8 @@ def judgeNodeCrash (cfg : Cfg) (topics ids : List String) (ops : List NOp) (unin
   let toldBefore := evsOf toldb
   if done then
     -- every id resumes, on every topic of the node, at the level last recorded (= last announced) for it
-    let badR := keys.filter fun (T, i) => lvOf resume T i != lastTold toldBefore T i
+    let badR := keys.filter fun (T, i) => lvOf resume T i != lastTold toldBefore T i ||
+      lvOf resume T i != nodeLevel cfg.noRec (ops.take (k + 1)) i || lvOf final T i != nodeLevel cfg.noRec ops i
     if !badR.isEmpty then throw (.specfail "resume-level" s!"{what}: {showKeys badR} resumed {renderDump resume} told {renderDump toldb}")
     match unint with
     | some u =>
@@ -393,7 +394,8 @@ def judgeNode (cfg : Cfg) (lines : Array String) : Verdict := Id.run do
       let ids' := dedup (ids ++ idsOf mem ++ idsOf disk)
       let keys := keysOf topics ids'
       -- uninterrupted run: what is on disk is the last announced level, and nothing is recorded for an id that is OK
-      let bad := keys.filter fun (T, i) => lvOf disk T i != lastTold (evsOf told) T i || (presentIn disk T i && lvOf disk T i == 0)
+      let bad := keys.filter fun (T, i) => lvOf disk T i != lastTold (evsOf told) T i || (presentIn disk T i && lvOf disk T i == 0) ||
+        lvOf disk T i != nodeLevel cfg.noRec ops i || lvOf mem T i != nodeLevel cfg.noRec ops i
       if !bad.isEmpty then return .specfail "disk-tracks-last-non-ok" s!"uninterrupted: {showKeys bad} disk {renderDump disk} told {renderDump told}"
       match cmpDumps "uninterrupted" [("mem", mem, dumpOfStore w.svc.mem topics ids'), ("disk", disk, dumpOfStore w.svc.disk topics ids'),
                                       ("told", told, dumpOfTold w.svc.told topics)] with
